@@ -3014,6 +3014,22 @@ def check_C08(ctx):
                     break
         rep.ob("C08.suit-blind", "24 relabellings", sym and not fac["slots_left"] and (fz.found["F"] + fz.found["U"]) > 0 and badp is None,
                "the five-card value depends on suits other than through tests that are invariant under relabelling the four suits%s" % ((": suits %s vs relabelling %s" % (badp[1], badp[2])) if badp else ""), pdb.where(fac["key"]))
+        # ... and whether the evaluation *returns* is suit-blind too: a panic site whose condition, rewritten over the
+        # recognised summaries, still reads slot bits could fire for one suit and not for another
+        def sites():
+            from .base import decide_site
+            for (o, c2, pc2) in fac["robs"]:
+                left = sorted({a for root in [c2] + list(pc2) for a in atoms_of(root) if a.startswith("s")})
+                if not left:
+                    continue       # depends on rank mask / flush flag / product only: the same before and after a shift
+                label = "%s %s L%s" % (short(o.fn), o.kind, o.line)
+                dec_, how_ = decide_site(ctx, o)
+                if dec_ is True:
+                    rep.ob("C08.suit-blind-panic-sites", label, True)
+                else:
+                    rep.ob("C08.suit-blind-panic-sites", label, False, "a panic site of the five-card evaluation reads slot bits %s outside the rank mask / flush test%s: the evaluation may return for one suit and panic for another" % (
+                        left, (" (fails for %s)" % describe_env(how_)) if dec_ is False and how_ else ""), "%s line %s" % (pdb.where(o.fn), o.line))
+        ctx.guard("C08.suit-blind-panic-sites", sites)
     ctx.guard("C08.suit-blind-selection", suit_blind_selection, ctx)
     # the value users read is that function's value
     value_wiring(ctx, "E")
